@@ -7,6 +7,7 @@ job     = dict(kind="abs",  design=<abstract design of harness/vp/design.py>, un
         | dict(kind="cyc",  cyc=<reference-group design, see build_cyc>)
         | dict(kind="gen",  gen=<generator design, see build_gen>)
         | dict(kind="example", name=str)
+        | dict(kind="pdk", pdk=<python package of a PDK>, family="CORE"|"NONE")
         + optional between=int : more unrelated allocation directly before this job
 
 result per job (property-level observables only):
@@ -226,6 +227,26 @@ def build_example(name):
     raise ValueError(name)
 
 
+def build_pdk(pdkname, fam):
+    """a small hierarchical design of generic transistors, compiled to the named PDK package"""
+    import importlib
+    from hdl21.prefix import µ
+    pk = importlib.import_module(pdkname)
+    family = getattr(h.MosFamily, fam)
+    tag = pdkname.replace(".", "_") + "_" + fam
+    m = h.Module(name="Cell_" + tag)
+    m.vdd, m.vss, m.a, m.y = h.Port(), h.Port(), h.Port(), h.Port()
+    m.mn = h.Nmos(w=1 * µ, l=1 * µ, family=family)(d=m.y, g=m.a, s=m.vss, b=m.vss)
+    m.mp = h.Pmos(w=2 * µ, l=1 * µ, family=family)(d=m.y, g=m.a, s=m.vdd, b=m.vdd)
+    m.mn2 = h.Nmos(w=1 * µ, l=1 * µ, npar=2, family=family)(d=m.y, g=m.a, s=m.vss, b=m.vss)
+    top = h.Module(name="Top_" + tag)
+    top.vdd, top.vss, top.x = h.Signal(), h.Signal(), h.Signal(width=3)
+    top.i0 = m(vdd=top.vdd, vss=top.vss, a=top.x[0], y=top.x[1])
+    top.i1 = m(vdd=top.vdd, vss=top.vss, a=top.x[1], y=top.x[2])
+    pk.compile(top)
+    return top
+
+
 def sha(b):
     return hashlib.sha256(b).hexdigest()
 
@@ -271,6 +292,8 @@ def do(job):
             top = build_gen(job["gen"])
         elif k == "example":
             top = build_example(job["name"])
+        elif k == "pdk":
+            top = build_pdk(job["pdk"], job["family"])
         else:
             raise ValueError(k)
     except Exception as e:
